@@ -124,4 +124,20 @@ func init() {
 	c07 := checkDefs["C07"]
 	c07.Scens = append(c07.Scens, scenBudget{"backup", 5000, 150000})
 	c14.Scens = append(c14.Scens, scenBudget{"backup", 4000, 120000})
+
+	defCheck(&checkDef{Prop: "C15", Level: "exploration",
+		Scens:  []scenBudget{{"sliter", 40000, 1500000}},
+		Rule:   "one evaluation = one plan: 2-6 stable items interleaved with churn keys, each churn key owned by one of 1-3 mutator tasks (so its possibly/definitely-present windows are known exactly from the stamped history), 1-2 iterator tasks running scans (SeekFirst or Seek(x), to the end or n steps, refresh interval, explicit Refresh, Pause/Resume), mutators aiming at the node the iterator stands on and its predecessor; oracle R1-R4 over the recorded history with every overlap resolved in favour of the code; non-trivial = a preemption inside an operation; distinct = distinct trace hash",
+		Real:   slReal, Stubbed: slStub,
+		Assume: []string{"items count as returned when the caller reads them after Seek/Next (the usual for-loop), not after Refresh"},
+		WarnProbe: []string{"scans"},
+	})
+	defCheck(&checkDef{Prop: "C18", Level: "exploration",
+		Scens:  []scenBudget{{"builder", 30000, 1000000}, {"merge", 30000, 1000000}},
+		Rule:   "builder: 0-8 segments (empty ones leading, trailing, in the middle, all empty) of 0-20 ascending items filled by one task per segment concurrently (shared level CAS and allocator), Assemble, scan == concatenation, structural walk and statistics, then 1-3 clients running Insert2/Delete/Lookup on the assembled list checked with porcupine; non-trivial = a preemption inside an operation. merge: MergeIterator is sequential code over quiescent lists (no schedule dimension): generated cursor programs (SeekFirst, Seek(x), Next x n, re-positioning before/during/after a scan) over 0-5 lists with overlapping/disjoint/duplicate/empty contents against a sorted-multiset model, counted separately as sequential_cases; distinct = distinct trace hash",
+		Real:   append([]string{"skiplist.Builder, Segment.Add, Assemble, MergeIterator"}, slReal...), Stubbed: slStub,
+		Assume: []string{"merge-iterator clause has no interleaving to explore; it is checked by seeded generation only"},
+		WarnProbe: []string{"segments"},
+	})
+	c14.Scens = append(c14.Scens, scenBudget{"builder", 8000, 250000})
 }
